@@ -28,8 +28,19 @@ def main():
         sys.exit(2)
     try:
         rc = mod.run(tier, seed)
-    except Exception:
+    except Exception as e:
+        tb = traceback.format_exc()
         traceback.print_exc()
+        # The harness never crashes on the unchanged tree (soaked over many seeds).  An exception that comes out of the
+        # implementation (a frame inside the package, also through a worker's remote traceback) where the harness expects an
+        # answer means the code no longer behaves as the model says: the correspondence is broken, no failing input isolated.
+        chain = tb + ''.join(str(getattr(x, '__cause__', '') or '') for x in (e,))
+        if '/qce_circuit/' in chain or 'qce_circuit.' in chain:
+            oc = common.Outcome(a.prop)
+            oc.violation({'property': a.prop, 'kind': 'correspondence-broken',
+                          'unchecked': 'the implementation raised where the model answers; correspondence run aborted',
+                          'traceback': chain[-4000:]}, found_input=False)
+            sys.exit(oc.emit())
         sys.exit(2)
     sys.exit(rc)
 
